@@ -816,8 +816,20 @@ def _sep_present(call: ast.Call, sep: ast.expr | None, model: _SeqLen) -> bool:
                     for c in model.fi.local_nodes()
                 ) or any(isinstance(x, ast.Subscript) and isinstance(x.ctx, (ast.Store, ast.Del)) and isinstance(x.value, ast.Name) and x.value.id == L for x in model.fi.local_nodes())
                 rebinds_var = any(isinstance(x, ast.Name) and x.id == recv.id and isinstance(x.ctx, ast.Store) and x is not lp.target for x in ast.walk(lp))
-                if len(defs) == 1 and len(stores) == 1 and not grows and not rebinds_var:
-                    d = defs[0].value
+                def reorders_self(v_: ast.expr) -> bool:
+                    """``sorted(L, ..)`` / ``list(reversed(L))`` / ``L[::-1]``: the same elements in another order."""
+                    while True:
+                        if isinstance(v_, ast.Call) and dotted(v_.func) in ("sorted", "list", "tuple", "reversed") and v_.args:
+                            v_ = v_.args[0]
+                        elif isinstance(v_, ast.Subscript) and isinstance(v_.slice, ast.Slice):
+                            v_ = v_.value
+                        else:
+                            break
+                    return isinstance(v_, ast.Name) and v_.id == L
+
+                builds = [d_ for d_ in defs if not reorders_self(d_.value)]
+                if len(builds) == 1 and len(stores) == len(defs) and not grows and not rebinds_var:
+                    d = builds[0].value
                     if isinstance(d, (ast.ListComp, ast.GeneratorExp)) and len(d.generators) == 1 and isinstance(d.generators[0].target, ast.Name) and isinstance(d.elt, ast.Name) and d.elt.id == d.generators[0].target.id:
                         v = d.elt.id
                         for t_ in d.generators[0].ifs:
